@@ -16,13 +16,16 @@ SENDS = {0: "tell", 1: "publit", 2: "pubrx", 3: "bcast"}
 POSTS = {0: "dispatch", 1: "stopB", 2: "loopend", 3: "quitflush", 4: "deregB"}
 
 
-def _job(send, nsend, subb, subc, pauseb, post, cap, match=None):
+def _job(send, nsend, subb, subc, pauseb, post, cap, match=None, prefill=None):
     name = "C02.%s.n%d.b%dc%d.p%d.%s.cap%d" % (SENDS[send], nsend, subb, subc, pauseb, POSTS[post], cap)
     sym = ["auto-free bit", "errno left by handlers (int)", "quit code (uint8)"]
     d = {"SEND": send, "NSEND": nsend, "SUBB": subb, "SUBC": subc, "PAUSEB": pauseb, "POST": post, "CAP": cap}
     if send == 2:
         name += ".match%d" % match
         d["MATCH"] = match
+    if prefill:
+        name += ".full%s" % ("B" if prefill == 1 else "C")
+        d["PREFILL"] = prefill
     return l2_job(name, "l2/c02_deliver.c", defines=d,
                   symbolic=sym, bounds=name, unwind=13,
                   fp_extra=[(r"memhook\._free$", ["vf_free"])])
@@ -43,6 +46,10 @@ def jobs(tier):
                     cfgs.append((send, 1, 1, 1, pauseb, post, 3))
             cfgs += [(send, 2, 1, 1, 0, 0, 3), (send, 2, 1, 1, 0, 3, 3), (send, 2, 1, 1, 0, 0, 1), (send, 3, 1, 1, 0, 0, 2),
                      (send, 1, 1, 0, 0, 0, 3), (send, 1, 0, 0, 0, 0, 3)]
+    # one recipient's mailbox already full: the others must still get a broadcast / publish
+    for send in ((3, 1) if tier == "quick" else (3, 1)):
+        for pf in (1, 2):
+            js.append(_job(send, 1, 1, 1, 0, 0, 1, prefill=pf))
     seen = set()
     for c in cfgs:
         if c not in seen:
